@@ -21,7 +21,7 @@ import zlib
 
 import torch
 
-from . import common, opbuild as ob, c03_idx as ix
+from . import common, opbuild as ob, c03_idx as ix, c03_lib as lib
 from .common import zlit, zlist, natlist
 
 PROP = "C03"
@@ -65,9 +65,22 @@ def tensor_lit(shape, data):
     return "(mkT %s %s)" % (natlist(shape), zlist(data))
 
 
-def is_integral(x):
+INT_TOL = 1e-6     # FFT-based paths (Toeplitz matmul / to_dense) return integers up to ~1e-15; data are small integers
+
+
+def is_integral(x, tol=INT_TOL):
+    """finite and within tol of integers (exact integer data; only FFT / float summation noise is tolerated)"""
     x = x.detach()
-    return bool(torch.all(torch.isfinite(x)).item()) and bool(torch.equal(x, x.round()))
+    if x.numel() == 0:
+        return True
+    if not bool(torch.all(torch.isfinite(x)).item()):
+        return False
+    return bool(((x - x.round()).abs().max() <= tol).item())
+
+
+def rint(x):
+    """round a near-integral tensor to exact integers (float64)"""
+    return x.detach().to(torch.float64).round()
 
 
 def tlit_of(x):
@@ -118,7 +131,7 @@ def run_index(op, idx, dbg):
             r = op[idx]
             if not torch.is_tensor(r):
                 r = r.to_dense()
-            return ("ok", r)
+            return ("ok", rint(r) if is_integral(r) else r.detach(), r.dtype)
         except Exception as ex:           # noqa
             return ("err", type(ex).__name__, str(ex)[:160])
 
@@ -134,10 +147,12 @@ def same(a, b):
     return a.shape == b.shape and torch.equal(a.to(torch.float64), b.to(torch.float64))
 
 
-def fail_kind(r, exp):
+def fail_kind(r, exp, dtype=None):
     """None if r (implementation) agrees with exp (dense reference, an ('ok', tensor)); else the failure kind"""
     if r[0] == "ok":
         if same(r[1], exp[1]):
+            if dtype is not None and len(r) > 2 and r[2] not in dtype:
+                return "dtype"
             return None
         return "shape" if r[1].shape != exp[1].shape else "value"
     if SHAPE_ASSERT.search(r[2]):
@@ -222,10 +237,72 @@ def kids_of(e):
     return ",".join(sorted(set(ks)))
 
 
-def case_key(e, cell, fail, op="getitem"):
+def norm_items(items, nd):
+    """one item per dimension: ellipsis expanded, missing trailing indices filled with full slices"""
+    out = [ix.S() for _ in range(nd)]
+    for it, d in zip(items, ix.align(items, nd)):
+        if d is not None and d < nd:
+            out[d] = it
+    return out
+
+
+def as_slice(it):
+    """what __getitem__ turns a row / column item into: python ints (and 0-d tensors) become slice(i, i + 1)"""
+    if it["k"] == "int" or (it["k"] == "t" and not it["shape"]):
+        v = it["v"] if it["k"] == "int" else it["data"][0]
+        return ix.S(v, v + 1)
+    return it
+
+
+def is_noop(it):
+    return it["k"] == "slice" and it["a"] is None and it["b"] is None and it["s"] is None
+
+
+def path_attrs(e, items, shape):
+    """structural attributes naming the library code path an index takes (used only to key known findings narrowly)"""
+    nd = len(shape)
+    its = norm_items(items, nd)
+    row, col = as_slice(its[-2]), as_slice(its[-1])
+    at = {"block_fast": False, "cat_idx": None, "cat_on_batch": None, "row_eq_col": bool(row == col and not is_noop(row)),
+          "batch_tensors_ge2": sum(1 for it in its[:-2] if it["k"] == "list" or (it["k"] == "t" and it["shape"])) >= 2}
+    if e["cls"] in ("BlockDiag", "BlockInterleaved") and row["k"] == "slice" and col["k"] == "slice" \
+            and not (is_noop(row) and is_noop(col)) and row["s"] is None and col["s"] is None:
+        base_shape = ob.shape_of(e["base"])
+        k = base_shape[-3]
+        rs, re_, cs, ce = row["a"] or 0, row["b"] or shape[-2], col["a"] or 0, col["b"] or shape[-1]
+        at["block_fast"] = not ((rs % k) or (cs % k) or (re_ % k) or (ce % k))
+    if e["cls"] == "Cat":
+        d = e["dim"] if e["dim"] < 0 else e["dim"] - nd
+        it = its[d]
+        at["cat_on_batch"] = d < -2
+        if d >= -2:
+            it = as_slice(it)
+        n = shape[d]
+        if it["k"] == "slice":
+            a, b = it["a"], it["b"]
+            if it["s"] is not None:
+                at["cat_idx"] = "step"
+            elif a is None and b is None:
+                at["cat_idx"] = "noop"
+            elif (a is not None and (a < -n or a >= n)) or (b is not None and (b >= n or b <= -n)):
+                at["cat_idx"] = "slice-wrap"       # `x % size` differs from slice.indices(size)
+            else:
+                at["cat_idx"] = "slice-ok"
+        elif it["k"] == "int" or (it["k"] == "t" and not it["shape"]):
+            v = it["v"] if it["k"] == "int" else it["data"][0]
+            at["cat_idx"] = "negint" if v < 0 else "int"
+        else:
+            at["cat_idx"] = "t2" if (it["k"] == "t" and len(it["shape"]) >= 2) else "t1"
+    return at
+
+
+def case_key(e, cell, fail, op="getitem", debug=None, attrs=None):
     tc = tree_classes(e)
-    return {"op": op, "cls": e["cls"], "kids": kids_of(e), "cell": cell, "fail": fail,
-            "chol_upper": "Chol:upper" in tc, "has_zero": "Zero" in tc, "nbatch": len(ob.shape_of(e)) - 2}
+    k = {"op": op, "cls": e["cls"], "kids": kids_of(e), "cell": cell, "fail": fail, "debug": debug,
+         "chol_upper": "Chol:upper" in tc, "has_chol": any(c.startswith("Chol") for c in tc),
+         "has_zero": "Zero" in tc, "nbatch": len(ob.shape_of(e)) - 2}
+    k.update(attrs or {})
+    return k
 
 
 # ------------------------------------------------------------------------------------------ instances
@@ -354,12 +431,32 @@ def e2e_rows(ctx, nd, inst_no):
     return list(enumerate(ix.covering_array(nd)))
 
 
+def reference(op, e, stats):
+    """dense reference of an operator: op.to_dense() (rounded: data are small integers; FFT-based densification
+    leaves ~1e-16 noise), cross-checked against the independent assembly opbuild.dense(e)"""
+    try:
+        TD = op.to_dense()
+        D = ob.dense(e)
+    except Exception:      # noqa  construction / densification problems are C01's business
+        return None
+    if not is_integral(TD):
+        stats["e2e_skipped_nonintegral"] = stats.get("e2e_skipped_nonintegral", 0) + 1
+        return None
+    dt = (TD.dtype, op.dtype)     # Zero's to_dense() has the default dtype (a C01/C14 matter): either is accepted
+    TD = rint(TD)
+    if TD.shape != D.shape or not torch.equal(TD, D.to(torch.float64)):
+        # the class does not denote what its constructor arguments say (a C01 matter): C03 is judged against
+        # the operator's own to_dense() in that case
+        stats["e2e_denotation_mismatch_instances"] = stats.get("e2e_denotation_mismatch_instances", 0) + 1
+    return TD, dt
+
+
 def stage_e2e(ctx, rng):
     insts = instances(ctx)
-    cases = []          # (tag, e, items, bare, dbg, r, exp, cell)
+    cases = []
     defs = {}
     stats = {"e2e_evaluations": 0, "e2e_unsupported": 0, "e2e_direct_failures": 0, "e2e_denotation_mismatch_instances": 0,
-             "e2e_instances": 0, "e2e_known_cells": 0}
+             "e2e_instances": 0, "e2e_skipped_nonintegral": 0}
     cells_seen = set()
     kind_hist = {}
     per_cls_count = {}
@@ -367,16 +464,12 @@ def stage_e2e(ctx, rng):
     for tag, e in insts:
         try:
             op = ob.build(e)
-            D = ob.dense(e)
-            TD = op.to_dense()
-        except Exception:      # noqa  construction / densification problems are C01's business
+        except Exception:      # noqa
             continue
-        if not is_integral(TD):
+        ref = reference(op, e, stats)
+        if ref is None:
             continue
-        if TD.shape != D.shape or not torch.equal(TD.to(torch.float64), D):
-            # the class does not denote what its constructor arguments say (C01 finding, e.g. Chol upper):
-            # C03 is then judged against the operator's own to_dense() only
-            stats["e2e_denotation_mismatch_instances"] += 1
+        TD, dt = ref
         shape = list(TD.shape)
         nd = len(shape)
         cno = per_cls_count.get(e["cls"], 0)
@@ -396,7 +489,7 @@ def stage_e2e(ctx, rng):
             for dbg in (True, False):
                 r = run_index(op, idx, dbg)
                 stats["e2e_evaluations"] += 1
-                fk = fail_kind(r, exp)
+                fk = fail_kind(r, exp, dt)
                 cells_seen.add((e["cls"], cell))
                 cases.append((tag, e, items, bare, dbg, r, exp, cell, dname, fk))
     stats["e2e_impl_seconds"] = round(time.time() - t0, 1)
@@ -411,13 +504,13 @@ def stage_e2e(ctx, rng):
                 continue
             fk = "raise:" + r[1]
         stats["e2e_direct_failures"] += 1
-        key = case_key(e, cell, fk)
+        key = case_key(e, cell, fk, debug=dbg, attrs=path_attrs(e, items, ob.shape_of(e)))
         sk = json.dumps(key, sort_keys=True)
         if sk in reported:
             continue
         reported.add(sk)
         ctx.violation({"kind": "getitem-differs-from-dense", "layer": "L4", "expr": e, "index": items, "bare": bare,
-                       "debug": dbg, "shape": list(exp[1].shape) and ob.shape_of(e),
+                       "debug": dbg, "shape": ob.shape_of(e),
                        "observed": obs_json(r), "expected": obs_json(exp), "index_shown": ix.show(items, bare),
                        "describe": ob.describe(e)}, key=key)
     # ---- correspondence with the Coq SPEC on the same cases (implementation output vs torch_index on the dense literal)
@@ -425,14 +518,11 @@ def stage_e2e(ctx, rng):
     for ci, (tag, e, items, bare, dbg, r, exp, cell, dname, fk) in enumerate(cases):
         if fk is not None:
             continue            # already triaged by the oracle above (failing input or declared unsupported)
-        if r[0] == "ok" and not is_integral(r[1]):
-            continue
         lits.append("SC %s %s %s" % (dname, idx_lit(items), otensor_lit(r)))
         idxmap.append(ci)
     shards = []
     for i in range(0, len(lits), SH):
-        used = sorted({m.group(0) for l in lits[i:i + SH] for m in [re.match(r"SC (D\d+)", l)] if m})
-        used = [u[3:] for u in used]
+        used = sorted({m.group(1) for l in lits[i:i + SH] for m in [re.match(r"SC (D\d+)", l)] if m}, key=lambda u: int(u[1:]))
         shards.append(("e2e_%d" % (i // SH), shard([defs[u] for u in used], "spec_case", lits[i:i + SH], "bad_spec"),
                        len(lits[i:i + SH])))
     bad = run_shards(ctx, "L4", shards)
@@ -445,6 +535,7 @@ def stage_e2e(ctx, rng):
     stats["e2e_coq_mismatches"] = len(bad or [])
     stats["e2e_distinct_cells"] = len(cells_seen)
     stats["e2e_kind_histogram"] = kind_hist
+    stats["e2e_classes"] = len(per_cls_count)
     samples = [{"expr": ob.describe(c[1]), "shape": ob.shape_of(c[1]), "index": ix.show(c[2], c[3]), "debug": c[4],
                 "result_shape": list(c[5][1].shape) if c[5][0] == "ok" else c[5][1]} for c in (cases[len(cases) // 3], cases[-1])]
     return stats, samples, cells_seen
@@ -474,18 +565,20 @@ def stage_diag(ctx, rng):
     for tag, e in insts:
         try:
             op = ob.build(e)
-            TD = op.to_dense()
         except Exception:      # noqa
             continue
-        if not is_integral(TD):
+        ref = reference(op, e, {})
+        if ref is None:
             continue
+        TD, dt = ref
         square = TD.shape[-1] == TD.shape[-2]
         exp = ("ok", torch.diagonal(TD, dim1=-2, dim2=-1)) if square else None
         for dbg in (True, False):
             from linear_operator import settings
             with settings.debug(dbg):
                 try:
-                    r = ("ok", op.diagonal())
+                    r = op.diagonal()
+                    r = ("ok", rint(r) if is_integral(r) else r.detach(), r.dtype)
                 except Exception as ex:       # noqa
                     r = ("err", type(ex).__name__, str(ex)[:160])
             stats["diag_evaluations"] += 1
@@ -496,19 +589,20 @@ def stage_diag(ctx, rng):
                     continue
                 fk = "nonsquare-no-error"
             else:
-                fk = fail_kind(r, exp)
+                fk = fail_kind(r, exp, dt)
                 if fk == "unsupported" and e["cls"] == "Masked" and e["row_mask"]["data"] != e["col_mask"]["data"]:
                     stats["diag_unsupported"] += 1      # MaskedLinearOperator._diagonal: NotImplementedError for distinct masks
                     continue
             if fk is None:
-                if is_integral(r[1]):
-                    lits.append("DC %s %s" % (tlit_of(TD), otensor_lit(r)))
-                    meta.append((e, dbg, r))
+                lits.append("DC %s %s" % (tlit_of(TD), otensor_lit(r)))
+                meta.append((e, dbg, r))
                 continue
+            if fk == "unsupported":
+                fk = "raise:" + r[1]
             stats["diag_direct_failures"] += 1
             ctx.violation({"kind": "diagonal-differs-from-dense", "layer": "L4", "expr": e, "debug": dbg,
                            "observed": obs_json(r), "expected": obs_json(exp) if exp else "explicit not-square error",
-                           "describe": ob.describe(e)}, key=case_key(e, "diagonal", fk, op="diagonal"))
+                           "describe": ob.describe(e)}, key=case_key(e, "diagonal", fk, op="diagonal", debug=dbg))
     shards = [("diag_%d" % (i // SH), shard([], "diag_case", lits[i:i + SH], "bad_diag"), len(lits[i:i + SH]))
               for i in range(0, len(lits), SH)]
     bad = run_shards(ctx, "L4d", shards)
@@ -546,9 +640,19 @@ def run(ctx):
     cov = {}
     if ok:
         cov.update(stage_spec(ctx, rng))
+        # L2 / L3: the transcriptions of the library code against the real functions
+        jobs = lib.Jobs()
+        lst = [lib.stage_getitem_py(ctx, rng, jobs),
+               lib.stage_front(ctx, rng, jobs, run_index, tlit_of, idx_lit, otensor_lit),
+               lib.stage_classes(ctx, rng, jobs)]
+        jobs.run(ctx)
+        for d in lst:
+            cov.update(d)
     st, samples, cells = stage_e2e(ctx, rng)
     cov.update(st)
     cov.update(stage_diag(ctx, rng))
+    import linear_operator
+    cov["tree_under_test"] = os.path.dirname(os.path.dirname(os.path.abspath(linear_operator.__file__)))
     ctx.coverage.update(cov)
     ctx.coverage.update({
         "trusted_base": common.COQ_TRUSTED + [
@@ -579,15 +683,18 @@ def replay(rp):
     e = rp["expr"]
     op = ob.build(e)
     TD = op.to_dense()
+    dt = (TD.dtype, op.dtype)
+    TD = rint(TD)
     if rp.get("kind", "").startswith("diagonal"):
         from linear_operator import settings
         with settings.debug(bool(rp.get("debug"))):
             try:
-                r = ("ok", op.diagonal())
+                r = op.diagonal()
+                r = ("ok", rint(r) if is_integral(r) else r.detach(), r.dtype)
             except Exception as ex:      # noqa
                 r = ("err", type(ex).__name__, str(ex)[:160])
         exp = ("ok", torch.diagonal(TD, dim1=-2, dim2=-1))
-        fk = fail_kind(r, exp)
+        fk = fail_kind(r, exp, dt)
         print("expr:", ob.describe(e), "diagonal ->", obs_json(r), "expected", obs_json(exp))
         print("property failure: " + fk if fk else "property holds on this case")
         return 1 if fk else 0
@@ -595,7 +702,9 @@ def replay(rp):
     idx = ix.to_py(items, bare)
     exp = run_dense(TD, idx)
     r = run_index(op, idx, bool(rp.get("debug")))
-    fk = fail_kind(r, exp)
+    fk = fail_kind(r, exp, dt)
+    if fk == "unsupported" and declared_unsupported(e, items, r):
+        fk = None
     print("expr:", ob.describe(e), "shape", list(TD.shape), "index", ix.show(items, bare), "debug", rp.get("debug"))
     print("observed:", obs_json(r))
     print("expected:", obs_json(exp))
